@@ -603,6 +603,7 @@ type rtParams struct {
 	cancelAt      int // op index at which Run's context is cancelled (-1: only at the end)
 	garbage       bool
 	realTimer     bool
+	syncAtCommit  bool // the first blocked commit callback is overtaken by a sync with the block of its height
 	churn         int  // rounds of (election, commit in the next view) after the probe
 	panicSync     bool // the cancellation comes from inside a consumer block whose Height() then panics in the main loop
 	consumerPanic bool // one commit callback of the run panics (consumer code crashes)
@@ -669,7 +670,7 @@ func runRuntime(p rtParams, runId int) []rtEvent {
 		blockProb: map[string]int{"committee": rnd.Intn(30), "propose": rnd.Intn(60), "validate": rnd.Intn(60), "commit": rnd.Intn(40)}, ctxOnly: rnd.Intn(70)}
 	atomic.StoreInt32(&r.failCommit, int32(rnd.Intn(25)))
 	currentRt.Store(r)
-	if p.staleAtCancel {
+	if p.staleAtCancel || p.syncAtCommit {
 		r.blockProb["commit"] = 70
 	}
 	if p.consumerPanic {
@@ -786,6 +787,7 @@ func runRuntime(p rtParams, runId int) []rtEvent {
 	}
 	r.updateState(ctx, 0, "driver") // start: sync with genesis
 	maxB, floods := 0, 0
+	syncedAtCommit := false
 	for i := 0; i < p.ops; i++ {
 		if p.staleAtCancel && i >= p.cancelAt && atomic.LoadInt32(&r.hung) == 0 {
 			r.gateMu.Lock()
@@ -846,6 +848,30 @@ func runRuntime(p rtParams, runId int) []rtEvent {
 			break
 		}
 		r.votesForRejected()
+		// directed, once per run of this kind: the first commit callback that blocks is overtaken by a node sync with the block of
+		// that very height; from then on the callback waits for its context only (it must be the context of the height being left)
+		if p.syncAtCommit && !syncedAtCommit {
+			r.gateMu.Lock()
+			var pick *blockedCall
+			for _, bc := range r.blocked {
+				if bc.kind == "commit" && (pick == nil || bc.id < pick.id) {
+					pick = bc
+				}
+			}
+			if pick != nil {
+				pick.untilCtx = true
+			}
+			r.gateMu.Unlock()
+			if pick != nil {
+				syncedAtCommit = true
+				r.log("driver.sync_over_blocked_call", obj{"call": pick.id, "kind": pick.kind, "h": pick.h})
+				r.updateState(ctx, pick.h, "driver")
+				if pick.h > maxB {
+					maxB = pick.h
+				}
+				continue
+			}
+		}
 		switch x := rnd.Intn(100); {
 		case x < 45:
 			r.traffic()
@@ -1052,6 +1078,7 @@ func cmdRuntime(args []string) int {
 			p.cancelAt = rnd.Intn(*ops) // plain cancellation at a random point of the run
 		}
 		p.consumerPanic = i%6 == 5
+		p.syncAtCommit = i%6 == 2 && p.cancelAt < 0
 		if i%3 == 0 {
 			p.cancelAt = rnd.Intn(*ops) // cancellation injected at a random point of the run
 			p.panicSync = i%4 == 1
